@@ -17,7 +17,7 @@ ID = "C17"
 SHARDS = 32
 RULE = (
     "Hypothesis builds scripts with 1..3 @qlassf functions (generated programs with bool and non-bool returns, single- and "
-    "multi-statement bodies, names in random alphabetical order; defined with the decorator, from a source string bound to a different module-level name, or through an alias) and an invocation: py2bexp with form in {none, anf, cnf, dnf, nnf} x "
+    "multi-statement bodies, names in random alphabetical order; defined with the decorator, from a source string bound to a different module-level name (whose def name may be another function's module-level name), or through an alias) and an invocation: py2bexp with form in {none, anf, cnf, dnf, nnf} x "
     "format {sympy, dimacs} x entry point {a name, none for a single function} x output {stdout, file} x input {stdin, file}, or py2qasm "
     "with version {2.0, 3.0}; main() is run in-process (2% also as a subprocess). Oracle: the printed expression is parsed by an own reader, "
     "its names must be argument bits of the selected function and its truth table (all 2^n assignments) must equal the conjunction of the "
@@ -55,6 +55,9 @@ def case(draw):
         style = draw(st.sampled_from(["decorated", "decorated", "decorated", "string", "alias"]))
         # "string": NAME = qlassf("def inner_NAME ...");  "alias": @qlassf def orig_NAME ... ; NAME = orig_NAME
         defname = {"decorated": nm, "string": "inner_" + nm, "alias": "orig_" + nm}[style]
+        if style == "string" and nf > 1 and draw(st.booleans()):
+            # the source string defines a function called like ANOTHER module-level name of the script
+            defname = draw(st.sampled_from([x for x in names if x != nm]))
         funcs.append({"name": nm, "style": style, "prog": draw(gen_prog.program(cfg(), name=defname))})
     tool = draw(st.sampled_from(["py2bexp", "py2bexp", "py2bexp", "py2qasm"]))
     plain = all(f["style"] == "decorated" for f in funcs)
